@@ -93,22 +93,32 @@ example : (∀ a ∈ literals (Expr.node .and [.atom (.lic ⟨[109, 105, 116], f
   · exact ⟨⟨⟨by decide, by decide⟩, rfl⟩, ⟨⟨by decide, by decide⟩, rfl⟩⟩
 
 /-- the premises of `C04_in_context` / `C02_text` are satisfiable: over ASCII, the table
-    {mit; GPL[exception] alias "gnu gpl"}, the text `MIT  with GNU   gpl` (the pair written with other
-    case and spacing, the exception through its alias) is a spelling of the skeleton `mit WITH GPL` -/
+    {mit; GPL[exception] alias "gnu gpl"}, the text `MIT  with GNU   gpl OR my  Thing` (the pair written
+    with other case and spacing, the exception through its alias, then an unknown license of two words)
+    is a spelling of the skeleton `mit WITH GPL or <my Thing>` -/
 example :
     let T : Table := [⟨[109, 105, 116], [], false⟩, ⟨[71, 80, 76], [[103, 110, 117, 32, 103, 112, 108]], true⟩]
-    let text : Str := [77, 73, 84, 32, 32, 119, 105, 116, 104, 32, 71, 78, 85, 32, 32, 32, 103, 112, 108]
+    let text : Str := [77, 73, 84, 32, 32, 119, 105, 116, 104, 32, 71, 78, 85, 32, 32, 32, 103, 112, 108, 32, 79, 82, 32,
+      109, 121, 32, 32, 84, 104, 105, 110, 103]
     OpWordFree asciiCls T ∧ KwOwned asciiCls T ∧
-    ∃ segs, SegsFor asciiCls T [.sym (.withE ⟨[109, 105, 116], false⟩ ⟨[71, 80, 76], true⟩)] segs ∧
+    ∃ segs, SegsFor asciiCls T [.sym (.withE ⟨[109, 105, 116], false⟩ ⟨[71, 80, 76], true⟩), .or,
+        .sym (.lic ⟨[109, 121, 32, 84, 104, 105, 110, 103], false⟩)] segs ∧
       segPieces segs = wordPieces asciiCls text := by
   intro T text
   refine ⟨opWordFree_of_B _ _ (by decide), kwOwned_of_B _ _ (by decide), ?_⟩
   refine ⟨[([⟨0, [77, 73, 84], .word⟩], some (.sym ⟨[109, 105, 116], false⟩)), ([⟨5, [119, 105, 116, 104], .word⟩], some (.kw .with)),
-    ([⟨10, [71, 78, 85], .word⟩, ⟨16, [103, 112, 108], .word⟩], some (.sym ⟨[71, 80, 76], true⟩))], ?_, by decide⟩
+    ([⟨10, [71, 78, 85], .word⟩, ⟨16, [103, 112, 108], .word⟩], some (.sym ⟨[71, 80, 76], true⟩)),
+    ([⟨20, [79, 82], .word⟩], some (.kw .or)),
+    ([⟨23, [109, 121], .word⟩, ⟨27, [84, 104, 105, 110, 103], .word⟩], none)], ?_, by decide⟩
   have h := SegsFor.cons (c := asciiCls) (T := T)
-    (SegFor.withE ⟨[109, 105, 116], false⟩ ⟨[71, 80, 76], true⟩ [⟨0, [77, 73, 84], .word⟩] ⟨5, [119, 105, 116, 104], .word⟩
-      [⟨10, [71, 78, 85], .word⟩, ⟨16, [103, 112, 108], .word⟩] (by decide) (by decide) (ownedV_of_B _ _ _ _ (by decide)) (by decide) (ownedV_of_B _ _ _ _ (by decide)))
-    SegsFor.nil
+    (SegFor.withE ⟨[109, 105, 116], false⟩ ⟨[71, 80, 76], true⟩ _ ⟨5, [119, 105, 116, 104], .word⟩ _
+      (OperandSeg.known [⟨0, [77, 73, 84], .word⟩] (by decide) (ownedV_of_B _ _ _ _ (by decide)))
+      (by decide)
+      (OperandSeg.known [⟨10, [71, 78, 85], .word⟩, ⟨16, [103, 112, 108], .word⟩] (by decide) (ownedV_of_B _ _ _ _ (by decide))))
+    (SegsFor.cons (SegFor.or ⟨20, [79, 82], .word⟩ (by decide))
+      (SegsFor.cons (SegFor.lic ⟨[109, 121, 32, 84, 104, 105, 110, 103], false⟩ _
+        (OperandSeg.unknown [⟨23, [109, 121], .word⟩, ⟨27, [84, 104, 105, 110, 103], .word⟩] (by decide) (by decide) (by decide) rfl))
+        SegsFor.nil))
   simpa using h
 
 /-- non-vacuity: `a OR (b OR c)` keeps its nesting through the skeleton -/
